@@ -22,6 +22,7 @@ RULE = ("case = a history of events on one dataset (POST /entities with any comb
         "sync ids none/1/2, start/page/end/failure of 2 fullsync job runs - issued either as datasetSink calls or, in half of the "
         "cases, by the real FullSyncPipeline.sync over a scripted source - and 'all outstanding lease timers fire'), entities over "
         "6 ids x 3 contents x deleted flag; well-formed syncs with 0-3 disturbances inserted plus unconstrained random histories "
+        "and a family 'leased sync, request rejected for its sync id, silence past the lease, then the sync's batches/end' "
         "(thorough: also all 1000 three-event continuations over a 10-event alphabet); after every event the status class, the "
         "change-feed length and the latest view are compared. "
         "Non-trivial = the history contains a rejected/gone/failed request or a completion that tombstones at least one entity; "
@@ -111,6 +112,20 @@ def _witness_cases():
         # the left-over timer of an HTTP sync (id 7) that a job's end completed must not reset a later job's sync (id "")
         mk([plain(BASE), jstart(1), http([(4, 1, 0)], True, 7), jend(1), jstart(2), jbatch(2, [(1, 2, 0)]), EXPIRE,
             jbatch(2, [(2, 2, 0)]), jend(2)]),
+        # a rejected request (foreign id / missing id, with and without entities, with end flag) must leave the running
+        # sync's lease timer alone: the sync still expires, its later batches are plain writes and its end is 410
+        mk([plain(BASE), http([(1, 2, 0)], True, 1), http([(5, 1, 0)], False, 2), EXPIRE, http([(4, 1, 0)], False, 1),
+            http([(2, 2, 0)], False, 1, True)]),
+        mk([plain(BASE), http([(1, 2, 0)], True, 1), http([], False, 2), EXPIRE, http([], False, 1, True)]),
+        mk([plain(BASE), http([(1, 2, 0)], True, 1), http([(5, 1, 0)], False, 0), EXPIRE, plain([(6, 1, 0)]),
+            http([], False, 1, True)]),
+        mk([plain(BASE), http([], True, 2), http([(1, 3, 0)], False, 2), http([], False, 0, True), http([(6, 1, 0)], False, 1, True),
+            EXPIRE, http([(2, 2, 0)], False, 2, True)]),
+        # job-sync analogue: a request without id has put a lease on the job's sync (F09a); a foreign-id request is rejected
+        # and must not stop that lease from expiring
+        mk([plain(BASE), jstart(1), jbatch(1, [(1, 2, 0)]), plain([(4, 1, 0)]), http([(5, 1, 0)], False, 3), EXPIRE,
+            jbatch(1, [(2, 2, 0)]), jend(1)]),
+        mk([plain(BASE), jstart(1), plain([]), http([], False, 3, True), EXPIRE, plain([(2, 2, 0)]), jend(1)]),
         # start+end in one request; end without sync
         mk([plain(BASE), http([(2, 2, 0)], True, 3, True), http([(1, 1, 0)], False, 3, True), http([], True, 0, True)]),
     ]
@@ -181,10 +196,48 @@ def template_history(rng):
     return [plain([(i, 1, 0) for i in range(1, rng.range(2, 5))])] + evs
 
 
+def rejected_then_expire_history(rng):
+    """a leased sync (HTTP with id, or a job's sync leased by a request without id), 1-2 requests that are rejected for
+    their sync id (foreign or missing id; with/without entities; with/without end flag), silence past the lease, then the
+    original sync's batches / end and other requests"""
+    evs = [plain([(i, 1, 0) for i in range(1, rng.range(3, 5))])]
+    job = rng.chance(1, 3)
+    if job:
+        n = rng.range(1, 2)
+        sid = 0
+        evs.append(jstart(n))
+        if rng.chance(1, 2):
+            evs.append(jbatch(n, rand_ents(rng, 2)))
+        evs.append(plain(rand_ents(rng, 2)))            # leases the job's sync (id "")
+    else:
+        sid = rng.range(1, 2)
+        evs.append(http(rand_ents(rng, 2), True, sid))
+        for _ in range(rng.range(0, 1)):
+            evs.append(http(rand_ents(rng, 2), False, sid))
+    for _ in range(rng.range(1, 2)):
+        foreign = rng.choice([x for x in (0, 1, 2, 3) if x != sid])
+        evs.append(http(rand_ents(rng, 2), False, foreign, rng.chance(1, 3)))
+    if rng.chance(1, 6):                                # sometimes the sync refreshes its lease again before the silence
+        evs.append(http(rand_ents(rng, 1), False, sid) if not job else plain(rand_ents(rng, 1)))
+    evs.append(dict(EXPIRE))
+    for _ in range(rng.range(1, 3)):
+        r = rng.below(6)
+        if r == 0:
+            evs.append(plain(rand_ents(rng, 2)))
+        elif r == 1:
+            evs.append(http(rand_ents(rng, 2), False, rng.range(0, 3), rng.chance(1, 2)))
+        elif job:
+            evs.append(jbatch(n, rand_ents(rng, 2)))
+        else:
+            evs.append(http(rand_ents(rng, 2), False, sid))
+    evs.append(jend(n) if job else http(rand_ents(rng, 1), False, sid, True))
+    return evs
+
+
 def gen(rng, tier):
     out = []
     if tier == "quick":
-        n_t, n_r = 150, 150
+        n_t, n_r = 130, 130
     elif tier == "search":
         n_t, n_r = 250, 250
     else:
@@ -193,6 +246,8 @@ def gen(rng, tier):
         out.append(mk(template_history(rng), rng.chance(1, 2)))
     for _ in range(n_r):
         out.append(mk(rand_history(rng, 3, 9), rng.chance(1, 2)))
+    for _ in range({"quick": 50, "search": 80}.get(tier, 500)):
+        out.append(mk(rejected_then_expire_history(rng), rng.chance(1, 2)))
     if tier == "thorough":
         # every history of length 3 over a small alphabet after the common prefix (no timers: cheap)
         alpha = [http([(1, 2, 0)], True, 1), http([(2, 2, 0)], False, 1), http([(2, 2, 0)], False, 0),
